@@ -40,7 +40,9 @@ EXTENDS Integers, FiniteSets, TLC
 CONSTANTS NB,      \* buckets of the old table (a multiple of GWc)
           GWc,     \* group width
           Mode,
-          DebugAsserts   \* TRUE: hashbrown's debug assertions are live (debug build)
+          DebugAsserts,  \* TRUE: hashbrown's debug assertions are live (debug build)
+          Zst            \* TRUE: zero-sized elements (fix D2): reflect_remove cannot locate the bucket of a
+                         \* ZST (it panics), so griddle skips it and re-creates the iterator after the removal
 
 VARIABLES full,    \* set of full buckets of the old table
           g,       \* iterator: index of the loaded group
@@ -120,14 +122,21 @@ Carry ==
 \* RawTable::remove / erase of an element found in the old table
 Remove(b) ==
     /\ Ok /\ b \in full
-    /\ LET r == Reflect(It, b, FALSE, full) IN
-       /\ SetIt(r.it) /\ err' = r.err
-       /\ full' = full \ {b}
+    /\ IF Zst
+       THEN full' = full \ {b} /\ SetIt(IterOf(full \ {b})) /\ err' = "none"       \* OldTable::resync
+       ELSE LET r == Reflect(It, b, FALSE, full) IN
+            /\ SetIt(r.it) /\ err' = r.err
+            /\ full' = full \ {b}
 
 \* replace_bucket_with on an element of the old table; outcome \in {"some", "none", "unwind"}
 Replace(b, outcome) ==
     /\ Ok /\ b \in full
-    /\ CASE Mode = "fixed" ->
+    /\ CASE Mode = "fixed" /\ Zst ->
+                \* ResyncOnDrop: whatever the closure does (also when it unwinds), the iterator is re-created
+                \* from the table as it is afterwards; on Some the saved iterator is restored first
+                IF outcome = "some" THEN SetIt(IterOf(full)) /\ UNCHANGED <<full, err>>
+                ELSE full' = full \ {b} /\ SetIt(IterOf(full \ {b})) /\ err' = "none"
+         [] Mode = "fixed" ->
                 LET before == It
                     r == Reflect(It, b, FALSE, full)
                 IN IF outcome = "some"
